@@ -839,7 +839,7 @@ func main() {
 		i++
 	})
 	rec.Count("max_exhaustive_depth", int64(depth))
-	rec.Count("exhaustive_trees_total", int64(i))
+	rec.Count("max_exhaustive_trees_total", int64(i))
 
 	nrand := common.Pick(150000, 2000000)
 	for k := 0; k < nrand; k++ {
